@@ -555,6 +555,18 @@ static void cmd_psetf(int nt, char **t)
 	ob_printf(&out, "= %d %d", rc, errno); emit_dlog(); free(p);
 }
 
+/* PATCH <hdoc> <hpatch> <mode 0 in place | 1 copy_from> [hdst]  -> = <rc> <errno_code> <failure idx | -1> */
+static void cmd_patch(int nt, char **t)
+{
+	int hd = hidx(t[1]), hp = hidx(t[2]); int mode = (int)L(t[3]); struct json_patch_error pe; int rc;
+	memset(&pe, 0x5a, sizeof pe);
+	if (mode == 0) rc = json_patch_apply(NULL, H[hp], &H[hd], &pe);
+	else { int hx = hidx(t[4]); H[hx] = NULL; Hset[hx] = 1; rc = json_patch_apply(H[hd], H[hp], &H[hx], &pe); }
+	(void)nt;
+	ob_printf(&out, "= %d %d %ld", rc, pe.errno_code, pe.patch_failure_idx == (size_t)-1 ? -1L : (long)pe.patch_failure_idx);
+	emit_dlog();
+}
+
 /* ---- strings (C11) ---- */
 /* SSTR <h> <hex> [lenoverride]   json_object_set_string_len from an exact-size block;  SSTRZ: json_object_set_string */
 static void cmd_sstr(int nt, char **t)
@@ -658,6 +670,7 @@ static void dispatch(int nt, char **t)
 	else if (!strcmp(c, "UIDS")) cmd_uids(nt, t);
 	else if (!strcmp(c, "PSET")) cmd_pset(nt, t);
 	else if (!strcmp(c, "PGET")) cmd_pget(nt, t);
+	else if (!strcmp(c, "PATCH")) cmd_patch(nt, t);
 	else if (!strcmp(c, "PSETF")) cmd_psetf(nt, t);
 	else if (!strcmp(c, "HASHFN")) cmd_hashfn(nt, t);
 	else if (!strcmp(c, "HASH")) cmd_hash(nt, t);
